@@ -699,25 +699,25 @@ func (o *Float) BinaryOp(op token.Token, rhs Object) (Object, error) {
 		switch op {
 		case token.Add:
 			r := o.Value + rhs.Value
-			if r == o.Value {
+			if sameFloat(r, o.Value) {
 				return o, nil
 			}
 			return &Float{Value: r}, nil
 		case token.Sub:
 			r := o.Value - rhs.Value
-			if r == o.Value {
+			if sameFloat(r, o.Value) {
 				return o, nil
 			}
 			return &Float{Value: r}, nil
 		case token.Mul:
 			r := o.Value * rhs.Value
-			if r == o.Value {
+			if sameFloat(r, o.Value) {
 				return o, nil
 			}
 			return &Float{Value: r}, nil
 		case token.Quo:
 			r := o.Value / rhs.Value
-			if r == o.Value {
+			if sameFloat(r, o.Value) {
 				return o, nil
 			}
 			return &Float{Value: r}, nil
@@ -746,25 +746,25 @@ func (o *Float) BinaryOp(op token.Token, rhs Object) (Object, error) {
 		switch op {
 		case token.Add:
 			r := o.Value + float64(rhs.Value)
-			if r == o.Value {
+			if sameFloat(r, o.Value) {
 				return o, nil
 			}
 			return &Float{Value: r}, nil
 		case token.Sub:
 			r := o.Value - float64(rhs.Value)
-			if r == o.Value {
+			if sameFloat(r, o.Value) {
 				return o, nil
 			}
 			return &Float{Value: r}, nil
 		case token.Mul:
 			r := o.Value * float64(rhs.Value)
-			if r == o.Value {
+			if sameFloat(r, o.Value) {
 				return o, nil
 			}
 			return &Float{Value: r}, nil
 		case token.Quo:
 			r := o.Value / float64(rhs.Value)
-			if r == o.Value {
+			if sameFloat(r, o.Value) {
 				return o, nil
 			}
 			return &Float{Value: r}, nil
@@ -791,6 +791,13 @@ func (o *Float) BinaryOp(op token.Token, rhs Object) (Object, error) {
 		}
 	}
 	return nil, ErrInvalidOperator
+}
+
+// sameFloat reports whether a result equal to an operand may be represented
+// by the operand object itself: the values must also agree in the sign of
+// zero (0.0 * -1.0 is -0.0, which == 0.0 but is a different value).
+func sameFloat(r, v float64) bool {
+	return r == v && math.Signbit(r) == math.Signbit(v)
 }
 
 // Copy returns a copy of the type.
